@@ -201,7 +201,10 @@ Definition MFS (o : binop) (swap : bool) (axis1 : bool) (a : fin) (dis dvs : dty
 
 (* Frame op scalar / unlabelled 1-D array (axis 0) *)
 Definition MFA (o : binop) (swap : bool) (a : fin) (other : list val) (obs : fobs) : bool :=
-  cmp_obs true true (fi_index a) (fi_columns a) (M_tb_binop_rowwise (np_op_sw o swap) (fi_blocks a) other) obs.
+  let n := length other in
+  if negb (Nat.eqb n 1) && negb (Nat.eqb n (total_width (fi_blocks a)))
+  then match obs with Err e => String.eqb e "NotImplementedError" | Ok _ => false end
+  else cmp_obs true true (fi_index a) (fi_columns a) (M_tb_binop_rowwise (np_op_sw o swap) (fi_blocks a) other) obs.
 
 (* Frame.reindex called directly *)
 Definition MFR (a : fin) (ddi ddc : dtype) (new_index new_columns : option (list val)) (obs : fobs) : bool :=
